@@ -258,6 +258,40 @@ func runPlan(w *tr.W, rng *rand.Rand, src, variant string, shards, nprocs int, p
 	wd.x.Stop()
 }
 
+// lock-order probes for long multi-key lists: for a long ordered list L and a pair a < b of its keys
+//   P3 Lock(a);  P1 Locks(L) (parks on a, holding whatever precedes a in its internal order);
+//   P2 RLocks([a,b]) (parks on a);  P3 Unlock(a)  -> the pending reader P2 gets a and goes for b.
+// If P1's internal order had b before a although the caller's list has a before b, P1 and P2 now
+// wait for each other: two callers with consistently ordered duplicate-free lists are deadlocked.
+func runProbes(w *tr.W, rng *rand.Rand, variant string, shards, listLen, universe, maxPairs int) {
+	perm := rng.Perm(universe)[:listLen]
+	sort.Ints(perm)
+	L := make([]int, listLen)
+	for i, k := range perm {
+		L[i] = k + 1
+	}
+	type pair struct{ a, b int }
+	var pairs []pair
+	for i := 0; i < listLen; i++ {
+		for j := i + 1; j < listLen; j++ {
+			pairs = append(pairs, pair{L[i], L[j]})
+		}
+	}
+	rng.Shuffle(len(pairs), func(i, j int) { pairs[i], pairs[j] = pairs[j], pairs[i] })
+	if len(pairs) > maxPairs {
+		pairs = pairs[:maxPairs]
+	}
+	for _, pr := range pairs {
+		plan := []act{
+			{Op: "call", P: 3, Ks: []int{pr.a}, M: "w"},
+			{Op: "call", P: 1, Ks: L, M: "w"},
+			{Op: "call", P: 2, Ks: []int{pr.a, pr.b}, M: "r"},
+			{Op: "unlock", P: 3},
+		}
+		runPlan(w, rng, "probe", variant, shards, 3, plan)
+	}
+}
+
 func orderedSublist(rng *rand.Rand, nkeys int) []int {
 	var ks []int
 	for len(ks) == 0 {
@@ -389,6 +423,8 @@ func main() {
 	seed := flag.Int64("seed", 1, "seed")
 	nrand := flag.Int("rand", 100, "random schedules")
 	nstress := flag.Int("nstress", 10, "stress runs")
+	nprobe := flag.Int("nprobe", 5, "long-list lock-order probe families")
+	probePairs := flag.Int("probepairs", 60, "pairs probed per long list")
 	flag.Parse()
 	rng := rand.New(rand.NewSource(*seed))
 	shardsL := []int{1, 2, 3, 73}
@@ -406,6 +442,10 @@ func main() {
 		np := rng.Intn(3) + 3
 		nk := rng.Intn(3) + 2
 		runPlan(w, rng, "rand", variants[rng.Intn(len(variants))], shardsL[rng.Intn(4)], np, randPlan(rng, np, nk, 25+rng.Intn(40)))
+	}
+	for i := 0; i < *nprobe; i++ {
+		tv := []string{"tkg-int", "tkg-str", "tkgx-int", "tkgx-str", "tk-int"}[i%5]
+		runProbes(w, rng, tv, []int{73, 3, 2, 73, 1}[i%5], []int{13, 16, 24, 20, 14}[i%5], 36, *probePairs)
 	}
 	w.Close()
 	sw := tr.Create(*stress)
